@@ -96,6 +96,8 @@ void lp_polynomial_vector_push_back_move(lp_polynomial_vector_t* v, lp_polynomia
   coefficient_t *v_p = v->data + v->size;
   coefficient_construct_from_int(v->ctx, v_p, 0);
   coefficient_swap(&p->data, v_p);
+  // p is now the zero polynomial, the cached hash is no longer valid
+  p->hash = 0;
   v->size ++;
 }
 
